@@ -11,7 +11,9 @@ EXPLAIN = ('gateway approve_messages / validate_proof: (R1) every approval write
            'weights are added by a trapping checked add only after ed25519_verify in the same iteration, the accumulator '
            'starts at 0; (R5) who-may-write: signer-set maps and Epoch only on rotation/constructor paths, '
            'DomainSeparator/PreviousSignerRetention/MinimumRotationDelay constructor-only; (R6) validate_proof entry: every '
-           'success exit lies behind the same facts with D = its data_hash parameter and it has no effect.')
+           'success exit lies behind the same facts with D = its data_hash parameter and it has no effect; (R7) completeness, structurally: the only '
+           'input-dependent refusals and arithmetic traps on the accept path are the expected ones (unknown set, outside retention, signers '
+           'exhausted below threshold, weight overflow, empty batch), so no additional condition can refuse an honest, sufficiently signed proof.')
 NOT_DECIDED = ('Ed25519/Keccak/XDR mathematics (T5); completeness ("every honest proof is accepted") only structurally: '
                'the threshold comparison is >=, weights are never skipped for Signed entries, traps only on overflow.')
 ASSUME = ['T1', 'T3', 'T5', 'T6']
@@ -39,6 +41,7 @@ def check(P, rep):
             ok, _, w = mg(g, [e.node], (), edges(nonempty)) if nonempty else (False, None, None)
             rep.check(ok, 'C01.R1', 'approve_messages:%s:nonempty' % e.kind, 'approval effect is must-guarded by !messages.is_empty()', esite(g, e), None, w)
         check_sig_loop(rep, 'C01.R3', g, pf)
+        completeness(rep, 'C01.R7', g, pf, extra=[('empty batch', lambda c_: c_[0] == 'true' and c_[1][0] == 'call' and c_[1][1].endswith('::is_empty') and core(c_[1][2][0]) == msgs)])
         # R2: batch binding — the approving loop iterates the signed vector
         for e in effs:
             if e.kind == 'sw' and key_variant(e.key)[0] == 'MessageApproval':
@@ -57,6 +60,7 @@ def check(P, rep):
             rep.check(bool(gs) and g.success_needs((), edges(gs)), 'C01.R6', 'validate_proof:%s' % name,
                       'every success exit of validate_proof lies behind the %s guard' % name, entry_id(g))
         check_sig_loop(rep, 'C01.R6', g, pf)
+        completeness(rep, 'C01.R7', g, pf)
         rep.check(not state_effects(g), 'C01.R6', 'validate_proof:effect-free', 'validate_proof changes nothing', entry_id(g))
     else:
         rep.floor('gateway entry validate_proof', 0, 1)
